@@ -959,19 +959,20 @@ class Reaction(Object):
         """
         # no references to model when copying
         model = self._model
+        # a reaction that was removed from its model still uses the model's
+        # metabolites and genes: every object gets its own reference back
+        models = {i: i._model for i in (*self._metabolites, *self._genes)}
         self._model = None
-        for i in self._metabolites:
-            i._model = None
-        for i in self._genes:
+        for i in models:
             i._model = None
         # now we can copy
-        new_reaction = deepcopy(self)
-        # restore the references
-        self._model = model
-        for i in self._metabolites:
-            i._model = model
-        for i in self._genes:
-            i._model = model
+        try:
+            new_reaction = deepcopy(self)
+        finally:
+            # restore the references
+            self._model = model
+            for i, its_model in models.items():
+                i._model = its_model
         return new_reaction
 
     def __add__(self, other: "Reaction") -> "Reaction":
